@@ -211,6 +211,7 @@ func init() {
 			c.min("R-VERIFIED/vote", 7)
 			c.ruleAncestryGrandpaVoter()
 			c.min("R-ANCESTRYARGS", 2)
+			c.ruleVoterSelection()
 		})
 	register("C19", "comparator sign analysis (R-CMP/unsigned), accumulator read-before-write (R-ACCUM), threshold convention and formula of the weighted voter set (R-THRESHCONV/B)",
 		"Decides: no 3-way comparator in finality-grandpa / the justification verifier derives its result from an unsigned subtraction (the order of precommits and the integer width cannot change the round base); a repeated voter's weight is accumulated (the stored weight depends on the old weight); the weighted threshold is n - floor((n-1)/3) (evaluated for n=1..300) and every comparison of a weight with it is `>=` (reached) / `<` (not reached); in the justification verifier every precommit's signature check dominates the success return and precedes any early continue. "+
